@@ -1020,6 +1020,41 @@ func c13Enumerate(tier string, emit explore.Emit) {
 			})
 		}
 	}
+	// every other frontend message type as the message that ends the COPY, directly behind the CopyInResponse or
+	// behind 1-2 CopyData messages: each surfaces as an error, none is skipped
+	foreign := []cletter{
+		{"Close(statement)", "foreign", "", pgproto.Msg('C', append([]byte{'S'}, 0))},
+		{"Close(portal)", "foreign", "", pgproto.Msg('C', append([]byte{'P'}, 0))},
+		{"Parse", "foreign", "", pgproto.Parse("", progRows)},
+		{"Bind", "foreign", "", pgproto.Bind("", "", nil, nil, nil)},
+		{"Describe(statement)", "foreign", "", pgproto.Describe('S', "")},
+		{"Execute", "foreign", "", pgproto.Execute("", 0)},
+		{"PasswordMessage", "foreign", "", pgproto.Password("pw")},
+		{"FunctionCall-type byte", "foreign", "", pgproto.Msg('F', []byte{0, 0, 0, 1})},
+		{"CopyData-lookalike 'D'", "foreign", "", pgproto.Msg('D', []byte("a"))},
+	}
+	for _, mode := range []string{"simple", "extended"} {
+		for _, pk := range []struct {
+			policy string
+			k      int
+		}{{"drain", 0}, {"drain", 1}, {"drain", 2}, {"take1", 0}, {"take2", 0}, {"take2", 1}} {
+			for _, f := range foreign {
+				for _, bin := range []bool{false, true} {
+					mode, pk, f, bin := mode, pk, f, bin
+					ls := []cletter{}
+					for i := 0; i < pk.k; i++ {
+						ls = append(ls, c13Letters()[0])
+					}
+					ls = append(ls, f)
+					emit(explore.Case{Family: "foreign-message", Size: 3 + pk.k,
+						Desc: func() any {
+							return map[string]any{"mode": mode, "handler_policy": pk.policy, "binary": bin, "after_copy_in_response": c13Names(ls)}
+						},
+						Run: func() explore.Result { return c13Run(mode, pk.policy, 1, bin, ls) }})
+				}
+			}
+		}
+	}
 	// extended protocol: every shape of the Bind message's result-format section x both copy formats
 	for _, ncols := range []int{1, 3} {
 		for _, bin := range []bool{false, true} {
